@@ -387,27 +387,72 @@ impl GraphEngine {
         let new_segments = Arc::new(vec![Arc::new(seg)]);
 
         // Property Sinking: Persist properties from L0Runs into the B-Tree Property Store.
-        let mut sink_node_props = BTreeMap::new();
-        let mut sink_edge_props = BTreeMap::new();
+        // Runs are newest first, so the first occurrence of a key decides: `Some` is the
+        // value to store, `None` a removal that must also leave the store.
+        let mut sink_node_props: BTreeMap<_, Option<crate::property::PropertyValue>> =
+            BTreeMap::new();
+        let mut sink_edge_props: BTreeMap<_, Option<crate::property::PropertyValue>> =
+            BTreeMap::new();
         for run in runs.iter() {
             for (node, props) in &run.node_properties {
                 for (key, val) in props {
                     sink_node_props
                         .entry((*node, key.clone()))
-                        .or_insert(val.clone());
+                        .or_insert(Some(val.clone()));
+                }
+            }
+            for (node, keys) in &run.tombstoned_node_properties {
+                for key in keys {
+                    sink_node_props.entry((*node, key.clone())).or_insert(None);
                 }
             }
             for (edge, props) in &run.edge_properties {
                 for (key, val) in props {
                     sink_edge_props
                         .entry((*edge, key.clone()))
-                        .or_insert(val.clone());
+                        .or_insert(Some(val.clone()));
+                }
+            }
+            for (edge, keys) in &run.tombstoned_edge_properties {
+                for key in keys {
+                    sink_edge_props.entry((*edge, key.clone())).or_insert(None);
                 }
             }
         }
 
+        // Replaces whatever the store holds for `btree_key` (older values would otherwise
+        // stay visible next to, or instead of, the new one).
+        fn replace_in_store(
+            tree: &mut BTree,
+            pager: &mut Pager,
+            btree_key: &[u8],
+            value: Option<&crate::property::PropertyValue>,
+        ) -> Result<()> {
+            loop {
+                let existing = {
+                    let mut cursor = tree.cursor_lower_bound(pager, btree_key)?;
+                    if cursor.is_valid()? && cursor.key()? == btree_key {
+                        Some(cursor.payload()?)
+                    } else {
+                        None
+                    }
+                };
+                match existing {
+                    Some(payload) if tree.delete(pager, btree_key, payload)? => {}
+                    _ => break,
+                }
+            }
+            if let Some(value) = value {
+                let blob_id = crate::blob_store::BlobStore::write(pager, &value.encode())?;
+                tree.insert(pager, btree_key, blob_id)?;
+            }
+            Ok(())
+        }
+
         let mut current_root = self.properties_root.load(Ordering::SeqCst);
-        if !sink_node_props.is_empty() || !sink_edge_props.is_empty() {
+        let has_stores = sink_node_props.values().any(|v| v.is_some())
+            || sink_edge_props.values().any(|v| v.is_some());
+        if has_stores || current_root != 0 {
             let mut pager = self.pager.write().unwrap();
             let mut tree = if current_root == 0 {
                 BTree::create(&mut pager)?
@@ -423,9 +468,7 @@ impl GraphEngine {
                 btree_key.extend_from_slice(&(key.len() as u32).to_be_bytes());
                 btree_key.extend_from_slice(key.as_bytes());
 
-                let encoded_val = value.encode();
-                let blob_id = crate::blob_store::BlobStore::write(&mut pager, &encoded_val)?;
-                tree.insert(&mut pager, &btree_key, blob_id)?;
+                replace_in_store(&mut tree, &mut pager, &btree_key, value.as_ref())?;
             }
 
             // Sink Edge Properties (Tag 1)
@@ -438,9 +481,7 @@ impl GraphEngine {
                 btree_key.extend_from_slice(&(key.len() as u32).to_be_bytes());
                 btree_key.extend_from_slice(key.as_bytes());
 
-                let encoded_val = value.encode();
-                let blob_id = crate::blob_store::BlobStore::write(&mut pager, &encoded_val)?;
-                tree.insert(&mut pager, &btree_key, blob_id)?;
+                replace_in_store(&mut tree, &mut pager, &btree_key, value.as_ref())?;
             }
 
             current_root = tree.root().as_u64();
